@@ -1118,7 +1118,7 @@ func nativeCallSpace() kit.Space {
 func spaces(tier string) []kit.Space {
 	debug.SetMaxStack(64 << 20) // a runaway recursion of the renderer dies quickly
 	sps := faultSpaces()
-	sps = append(sps, nativeCallSpace(), chanSeqSpace(), embeddedSpace(), assertSpace(), bigTablesSpace(tier), depthSpace(tier), showSpace(tier), urlSpace(tier))
+	sps = append(sps, nativeCallSpace(), chanSeqSpace(), embeddedSpace(), assertSpace(), bigTablesSpace(tier), depthSpace(tier), showSpace(tier), urlSpace(tier), namedSpace(tier))
 	if only := os.Getenv("C05_ONLY"); only != "" { // development aid
 		var out []kit.Space
 		for _, sp := range sps {
@@ -1144,6 +1144,7 @@ func main() {
 			"embedded: 10 native values (Customer{*Inner}, Deep{Mid{*Inner}}, pointers to them; nil embedded pointer; nil outer pointer) × 15 operations on promoted fields of the four register kinds and promoted methods × 6 holders (native variable, local copy, captured, package-level, template global, template variable) × {not recovered, recovered}: a nil pointer on the path gives the nil-pointer *PanicError (recoverable), otherwise the Go result; the value-receiver method through a nil pointer is left to the known finding of the faults space",
 			"assert-iface: 12 dynamic values (native types with no / fewer-parameter / more-parameter / other-result / pointer-receiver Name method, types declared in Scriggo, nil) × {x.(I), x.(I) in an expression, comma-ok, type switch} × source {any, another native interface} × 3 holders: result and panic message are those Go itself gives for the native values",
 			"big-tables: 27 table-indexed instruction kinds executed after n other entries of the same table, n around 127/128, 255/256 and beyond: either the compiler refuses (limit) or the program prints the expected value",
+			"named-variants-in-any: values whose dynamic type is a defined variant of a type the renderer special-cases ([]byte, string, numbers, bool, slices, maps, structs, pointers, funcs, channels, arrays, time.Time, the native typed strings; with and without a String/Error/HTML/JS/JSON/CSS/Markdown method) held in an any (7 host holders: any global, any variable passed to Run, []any element, map[string]any value, any struct field, native function result, local copy; and types declared by the template itself, as a local any and as an any parameter) × the 32 show contexts + 8 URL-attribute contexts × {template body, macro (thorough)}: same oracle, Run returns normally or with an error",
 			"C01's generated programs (space (a) of the design) are not re-run here",
 			"a panic raised by a method of a host value (String/Error/HTML/JS/JSON/CSS/Markdown, or the Go wrapper of a value method called through a nil pointer) is host code: the statement does not promise to convert it; it is classed 'host-code panic propagated'",
 			"results outside the documented list that are plain errors (an unshowable value: 'cannot show value of type …'; 'go of nil func value') are accepted and counted in their own outcome class: the statement's subject is host panics",
